@@ -46,7 +46,7 @@ def main():
         dst = os.path.join(wt, demo_pkg, "zz_seed_test.go")
         shutil.copy(demo, dst)
         try:
-            rc, out = sh([GO, "test", "-vet=off", "-count=1", "-run", "TestSeed", "-timeout", "300s",
+            rc, out = sh([GO, "test", "-vet=off", "-count=1", "-run", "Seed", "-timeout", "300s",
                           "./" + demo_pkg], cwd=wt)
         finally:
             os.remove(dst)
